@@ -104,7 +104,14 @@ def run(ctx):
         "to reach the error returns; the key functions on a grid of boundary ids; the same through PublicrpcServer.GetSignedVAA / "
         "GetNonGovernanceVAABatch / GetGovernanceVAABatch (valid, upper-case, short, long, non-hex addresses, out-of-range enum "
         "numbers, batch sizes 0..31, nil message id; at the end of every case each stream is asked for ALL its sequences - stored ones and "
-        "holes - in batches of 2..20, ascending, descending, shuffled, and in pairs stored/hole, each entry judged on its own) and through nodePrivilegedService.FindMissingMessages - plain, and with RpcBackfill "
+        "holes - in batches of 2..20, ascending, descending, shuffled, and in pairs stored/hole, each entry judged on its own; twice per case - and "
+        "in `down*` cases of the local layer - the store handle is UNAVAILABLE for the duration of the calls (closed and reopened around them, as "
+        "runNode's deferred db.Close() leaves it while the gRPC server still accepts calls): single lookups of stored identifiers and holes, "
+        "batches of one stored sequence / with a hole / of the whole stream / empty, the governance batch, gap queries - lines `down=1`: an "
+        "error is accepted there, an answer that is given is judged like any other; every third case all stored identifiers are looked up "
+        "again after a clean restart of the store; three `chain` cases store VAAs whose emitter / target chains cover the uint16 range - every "
+        "value of the proto enum and its neighbours, 18, 254, 256, 257, 1000, 10000, 10002, 32768, 65535, random ones - one in six with an "
+        "empty / nil payload, and look every one up (single + batch + swapped chains) before and after a restart and while the handle is down) and through nodePrivilegedService.FindMissingMessages - plain, and with RpcBackfill "
         "against two fake public-RPC nodes (plus an unreachable one) scripted per missing sequence: the VAA of that id, arbitrary bytes, "
         "no vaaBytes field, undecodable JSON / base64, 404, 5xx / 429 / 4xx (PRNG-placed, and written out: the first / a middle / the last / two / "
         "every missing sequence of a batch of seven failing while the others are served or declined); compared: requests made, what reached the processor's inbound "
@@ -130,5 +137,7 @@ def run(ctx):
         "first = 0 and, for an empty stream, missing = [0], last = 0 are taken as the specification because the repo's TestFindEmitterSequenceGap pins first = 0",
         "RPC requests whose chain enum number is outside 0..65535 are narrowed by the server (65538 -> 2); such a number names no VAA identifier, "
         "so the Spec is silent there and only model = implementation is checked (scope note)",
+        "while the harness keeps the store handle unavailable (lines down=1) a failing call is accepted - the statement says what an answer has to be, "
+        "not that the node answers when its store cannot be read (C12.rpc_batch_at_ok_exact: an OK batch was answered from reads that all succeeded)",
         "FindMissingMessages does not check the address length (short input is zero-padded, long input cut): the Spec judges 32-byte addresses only",
     ]
